@@ -697,8 +697,9 @@ type ObjectTypeField struct {
 
 func (self ObjectTypeField) String() string {
 	var key string
-	if util.IsIdent(self.FieldName.Ident()) {
-		key = fmt.Sprintf("\"%s\"", self.FieldName.Ident())
+	// A field name which is not an identifier must be quoted (and escaped) in order to parse again.
+	if !util.IsIdent(self.FieldName.Ident()) {
+		key = fmt.Sprintf("\"%s\"", escapeHmsString(self.FieldName.Ident()))
 	} else {
 		key = self.FieldName.Ident()
 	}
